@@ -23,12 +23,6 @@ import (
 
 // ---- C09: framing under arbitrary chunking, truncation, oversize, stalls ----
 
-var vfAnyTypes = []string{
-	"connectrpc.conformance.v1.Header",
-	"connectrpc.conformance.v1.ConformancePayload.RequestInfo",
-	"connectrpc.conformance.v1.UnaryRequest",
-	"connectrpc.conformance.v1.Error",
-}
 
 // vfChunkReader serves data in chunks ending at the given cut offsets.
 type vfChunkReader struct {
